@@ -1980,8 +1980,9 @@ class _It:
 
 def nditer(arrs, **kw):
     if isinstance(arrs, SymArray):
-        for v in arrs.flat_values():
-            yield _It(v)
+        # a single operand follows the same order rules as several (default 'K' = memory order)
+        for tup in nditer([arrs], **kw):
+            yield tup[0]
         return
     arrs = [asarray(a) for a in arrs]
     order = kw.get('order', 'K')
